@@ -63,7 +63,12 @@ def run(ck, ctx):
             pw = lm.custom(word, [word], "PROBE")
             for f in name_flags:
                 n_probe += 1
-                r = lm.step(f, pw)
+                try:
+                    r = lm.step(f, pw)
+                except Exception as e:       # the word is not even taken whole by one lexer rule
+                    ck.ob("O-lex-prefix", f"`{word}` is split by the scanner where a plain name is an identifier", False,
+                          f"`{word}` merely begins like the keyword {k}: {e}", "lexer rule order / regexes")
+                    break
                 val = r.value if not hasattr(r.value, "ex") else r.value.ex[0]
                 if r.type != "ID" or r.raised or val != word:
                     ck.ob("O-lex-prefix", f"`{word}` is typed {r.type} where a plain name is an identifier", False,
